@@ -22,7 +22,7 @@ RULE = ('error kinds {404, 405, 400 undecodable path, 400 malformed chunked body
         'string, Host and X-Forwarded-Host; observed through Ombott.__call__ with debug off. Non-trivial = a marker reached the request; '
         'distinct = distinct (error kind, rendering, marker placement and payload).')
 PYOPT = {'quick': 1, 'thorough': 1}     # one unit of every kind is also served by an interpreter started with -O (assert statements compiled out)
-REQUIRED = ['units_run_under_python_-O', 'addresses_of_thousands_of_characters', 'stock_page_reached_through_default_error_handler()', 'third_error_of_a_chain_rendered', 'debugging_application_in_same_process', 'tag_structure_compared_with_baseline', 'html_pages_parsed', 'json_bodies_parsed', 'marker_ids_found_escaped', 'kind_404', 'kind_405', 'kind_400_path', 'kind_400_body',
+REQUIRED = ['units_run_under_python_-O', 'debug_switched_off_with_another_falsy_value', 'addresses_with_utf8_text_in_wsgi_form', 'addresses_of_thousands_of_characters', 'stock_page_reached_through_default_error_handler()', 'third_error_of_a_chain_rendered', 'debugging_application_in_same_process', 'tag_structure_compared_with_baseline', 'html_pages_parsed', 'json_bodies_parsed', 'marker_ids_found_escaped', 'kind_404', 'kind_405', 'kind_400_path', 'kind_400_body',
             'kind_413', 'kind_500', 'kind_last_resort', 'in_query', 'in_host', 'in_path', 'format_syntax_markers']
 ASSUMPTIONS = ['debug is off', 'text the application itself supplies (abort(400, "<i>..")) is not request data',
                'the page is HTML: markup is what html.parser recognises as a tag, attribute or entity']
@@ -139,9 +139,9 @@ def check_json(ctx, r, kind, wit):
         ctx.violation('json-error-body-not-an-object', f'{kind}: {obj!r}', wit)
 
 
-def build_app():
+def build_app(debug=False):
     import ombott
-    app = ombott.Ombott({'max_body_size': 64, 'max_memfile_size': 32, 'debug': False})
+    app = ombott.Ombott({'max_body_size': 64, 'max_memfile_size': 32, 'debug': debug})
 
     @app.route('/only-get')
     def only_get():
@@ -237,13 +237,18 @@ def make_case(rng, i, kind, benign_of=None):
     else:
         places = benign_of
     if 'query' in places:
-        qs = 'a=' + mk('query') + '&' + mk('query')
+        qs = ('n=caf\xc3\xa9&' if i % 3 == 2 else '') + 'a=' + mk('query') + '&' + mk('query')
+        if i % 3 == 2:
+            LONG['utf8'] = LONG.get('utf8', 0) + 1
     if i % 5 == 3:
         # a very long address (thousands of characters): padding in the query string, the same in the baseline request
         qs = (qs + '&' if qs else '') + 'pad=' + 'p' * (700 * (1 + i % 7))
         LONG['n'] = LONG.get('n', 0) + 1
     if 'host' in places:
-        headers['Host'] = 'example.com' + mk('host')
+        # every third host carries UTF-8 text the way a WSGI server hands it over (its bytes read as Latin-1)
+        headers['Host'] = ('b\xc3\xbccher.example' if i % 3 == 1 else 'example.com') + mk('host')
+        if i % 3 == 1:
+            LONG['utf8'] = LONG.get('utf8', 0) + 1
     if 'xfh' in places:
         headers['X-Forwarded-Host'] = mk('host') + '.example'
     if 'path' in places:
@@ -318,7 +323,11 @@ def run_kind(ctx, app, lr_app, rng, i, kind, as_json, more_apps=None):
     env, exp, markers, target, headers = build_env(rc, kind, qs, headers, path_extra, markers, as_json, accept)
     variant = None
     if more_apps and target == 'app' and not isinstance(exp, tuple):
-        variant = ('plain', 'delegating', 'plain', 'chained' if kind == '404' else 'delegating')[(i // len(KINDS) // 2) % 4]
+        variant = ('plain', 'delegating', 'debug_none', 'chained' if kind == '404' else 'delegating', 'debug_zero', 'plain', 'debug_empty')[(i // len(KINDS) // 2) % 7]
+        if variant.startswith('debug_'):
+            # "debug off" spelled with another falsy value
+            app = more_apps[variant]
+            ctx.count('debug_switched_off_with_another_falsy_value')
         if variant == 'delegating':
             app = more_apps['delegating']
             ctx.count('stock_page_reached_through_default_error_handler()')
@@ -397,7 +406,7 @@ def run_unit(ctx, unit):
     rng = ctx.rng
     app = build_app()
     lr_app = build_lr_app()
-    more = {'delegating': build_delegating_app(), 'chained': build_chain_app()}
+    more = {'delegating': build_delegating_app(), 'chained': build_chain_app(), 'debug_none': build_app(None), 'debug_zero': build_app(0), 'debug_empty': build_app('')}
     # debug is a per-application setting: a debugging application created later in the same process must not
     # switch the exception text and traceback on for the applications under test
     import ombott
@@ -410,3 +419,4 @@ def run_unit(ctx, unit):
         kind = KINDS[i % len(KINDS)]
         run_kind(ctx, app, lr_app, rng, i, kind, as_json=(i // len(KINDS)) % 2 == 1, more_apps=more)
     ctx.count('addresses_of_thousands_of_characters', LONG.get('n', 0) // 2)
+    ctx.count('addresses_with_utf8_text_in_wsgi_form', LONG.get('utf8', 0) // 2)
